@@ -428,9 +428,22 @@ func (e *env) runStep(x *cl, st step, old *[][]byte) stepObs {
 			}
 		case actTamper:
 			if len(o.replies) > 0 {
+				// one bit changed in the value of the unique identifier or in the nonce/ciphertext
+				// part of the authenticator (its own 4-byte header is authenticated by nobody)
 				r := append([]byte(nil), o.replies[0]...)
-				bit := int(uint64(st.arg) % uint64((len(r)-ntp.PacketLen)*8))
-				r[ntp.PacketLen+bit/8] ^= 1 << (bit % 8)
+				lo, hi := ntp.PacketLen+4, len(r)
+				if pos, _, _, ok := authParts(r); ok {
+					if st.arg&1 == 0 {
+						hi = pos
+						if ntp.PacketLen+4+32 < hi {
+							hi = ntp.PacketLen + 4 + 32
+						}
+					} else {
+						lo = pos + 4
+					}
+				}
+				bit := int(uint64(st.arg>>1) % uint64((hi-lo)*8))
+				r[lo+bit/8] ^= 1 << (bit % 8)
 				o.delivered = r
 			}
 		case actReplay:
